@@ -325,6 +325,14 @@ func init() {
 			qmenu := []BlockSpec{editApp, blk(tx("app_unstake", "P1")), editNode, blk(tx("node_unstake", "N2")), {}}
 			qcfg := &chainDiffCfg{Name: "readonly-queries", Env: defaultEnv(), Menu: qmenu, Depth: cfg.Depth, Probes: c13Probes(), Phases: []string{"pre", "mid", "post"}, MaxIns: 1}
 			chainDiffExplore(c, qcfg)
+			// queries, CheckTx and simulations that arrive between two DeliverTx of the block being executed
+			transfer := tx("app_stake", "P1", "app", "NEW", "value", "0", "chains", "")
+			imenu := []BlockSpec{blk(transfer, tx("app_unstake", "P1")), blk(tx("app_unstake", "P1"), tx("app_stake", "P1", "value", "3000000", "chains", "0001")),
+				blk(tx("node_unstake", "N2"), tx("node_stake", "N2", "node", "N2", "value", "3000000", "output", "N2", "chains", "0002")), {}}
+			iprobes := []Probe{{Kind: "q_app", Args: map[string]string{"height": "0"}}, {Kind: "q_app", Args: map[string]string{"height": "-1"}}, {Kind: "q_node2", Args: map[string]string{"height": "0"}},
+				{Kind: "checktx", Tx: &TxSpec{Kind: "app_unstake", Signer: "P1"}}, {Kind: "simulate", Tx: &TxSpec{Kind: "app_unstake", Signer: "P1"}}}
+			icfg := &chainDiffCfg{Name: "readonly-inblock", Env: defaultEnv(), Menu: imenu, Depth: 2, Probes: iprobes, Phases: []string{"tx0"}, MaxIns: 1}
+			chainDiffExplore(c, icfg)
 			getPool().Close()
 		},
 		Replay: diffReplayFn,
